@@ -16,7 +16,8 @@ RULE = ('(a) 2..8 series, one case in 8 with 9..18 (lattice values, duplicates -
         'remaining prototypes within max_dist; for tie-free matrices the merge sequence equals a replay model; tree: n-1 rows, '
         'valid child ids, every node id 0..2n-3 a child exactly once, 2n-2 never, all leaves reachable from the root; '
         'LinkageTree.linkage = scipy.cluster.hierarchy.linkage of the condensed reference distances. Non-trivial: n >= 3 '
-        'with >= 2 merges, or ties present, or max_dist stops the merging early.')
+        'with >= 2 merges, or ties present, or max_dist stops the merging early.'
+        ' Tree accessors maxnode / get_linkage agree with the linkage; a child that is not a node id (None) is an invalid child.')
 ASSUMPTIONS = ['user-supplied hook objects with their own mutable state (weights lists) are freshly created per fit; the '
                'history leg uses only stateless hooks']
 
@@ -162,7 +163,14 @@ def _check_tree(res, tag, n, linkage):
         return
     children = []
     for i, r in enumerate(rows):
-        a, b = int(r[0]), int(r[1])
+        try:
+            a, b = int(r[0]), int(r[1])
+            if a != r[0] or b != r[1]:
+                raise ValueError
+        except (TypeError, ValueError):
+            # a child that is not a node id at all (None, a fraction) is an invalid child id, not a harness problem
+            res.fail(tag + ':child-id', 'row %d has children %r, %r: not node ids' % (i, r[0], r[1]))
+            return
         for x in (a, b):
             if not (0 <= x < n + i):
                 res.fail(tag + ':child-id', 'row %d refers to node %r (valid: 0..%d)' % (i, x, n + i - 1))
@@ -273,6 +281,15 @@ def run(case):
     res.nontrivial = (n >= 3 and nm >= 2) or ties or (md != inf and len(clusters) > 1)
     if case['model'] == 'tree' and finite:
         _check_tree(res, 'tree', n, model.linkage)
+        # the accessors of the tree: the root is node 2n-2, a leaf has no linkage row, an inner node has its own
+        got, exc = libcall(lambda: (model.maxnode, model.get_linkage(0), [model.get_linkage(n + i) for i in range(len(model.linkage))]))
+        if exc:
+            res.fail('tree:accessors:' + exc, 'maxnode / get_linkage raised')
+        elif len(model.linkage) == n - 1:
+            mx, leaf, rows = got
+            if mx != 2 * n - 2 or leaf is not None or [tuple(r) for r in rows] != [tuple(r) for r in model.linkage]:
+                res.fail('tree:accessors', 'maxnode=%r (root is %d), get_linkage(leaf)=%r, get_linkage(inner nodes)=%r, linkage=%r'
+                         % (mx, 2 * n - 2, leaf, rows, list(model.linkage)))
     # LinkageTree vs scipy on the reference distances
     if finite and n >= 2:
         from scipy.cluster.hierarchy import linkage
